@@ -677,7 +677,7 @@ func (p *wat2X64Worker) buildFunc_ins(
 
 		destScopeContex := scopeStack.FindScopeContext(i.X)
 		labelBrNextId := p.makeLabelId(kLabelPrefixName_brNext, destScopeContex.Label, destScopeContex.LabelSuffix)
-		labelBrFallthroughId := p.makeLabelId(kLabelPrefixName_brFallthrough, destScopeContex.Label, destScopeContex.LabelSuffix)
+		labelBrFallthroughId := p.makeLabelId(kLabelPrefixName_brFallthrough, destScopeContex.Label, p.genNextId())
 
 		// 弹出的是条件
 		sp0 := stk.Pop(token.I32)
